@@ -33,8 +33,25 @@ def main(argv=None):
     except core.MachineryError as e:
         print("machinery failure in %s: %s" % (pid, e))
         return 2
-    except Exception:
+    except Exception as e:
         traceback.print_exc()
+        # An exception raised INSIDE the library under test, on inputs every harness takes from the specification (all of them
+        # accepted by the unchanged tree), is the library refusing an operation that is defined: a violation, not a failure of
+        # the machinery.  Anything raised by the harness itself stays a machinery failure.
+        tb = traceback.extract_tb(e.__traceback__)
+        repo = os.path.realpath(os.environ.get("QUARA_REPO") or "/repo")
+        inner = tb[-1] if tb else None
+        lib_frames = [f for f in tb if os.path.realpath(f.filename).startswith(os.path.join(repo, "quara") + os.sep)]
+        if inner is not None and lib_frames and os.path.realpath(inner.filename).startswith(repo + os.sep):
+            where = lib_frames[-1]
+            harness_frames = [f for f in tb if os.sep + "harness" + os.sep in f.filename]
+            at = harness_frames[-1] if harness_frames else where
+            chk.violation("library_exception:%s:%s" % (os.path.basename(where.filename), where.name),
+                          "%s.%s raised %r on a specification-generated input (called from %s:%d); the check stopped here" % (
+                              os.path.basename(where.filename), where.name, e, os.path.basename(at.filename), at.lineno),
+                          dict(exception=repr(e), traceback=[(os.path.basename(f.filename), f.lineno, f.name) for f in tb[-8:]]))
+            chk.assumptions.append("the run was cut short by an exception inside the library; coverage figures are partial")
+            return chk.finish(rule="aborted by a library exception")
         print("machinery failure in %s (unexpected exception)" % pid)
         return 2
 
